@@ -465,14 +465,25 @@ Definition miter_ok (inter mid : point) (width : Z) : bool :=
   i64 (px (psub inter mid) * px (psub inter mid)) && i64 (py (psub inter mid) * py (psub inter mid)) &&
   i64 (length_squared (psub inter mid)) &&
   i64 (width * 2) && i64 ((width * 2) * (width * 2)).
+(* intersection_params.rs:74 value of nearly_colinear_has_error *)
+Definition nearly_colinear (l1 l2 : line) : bool :=
+  ip_denominator l1 l2 * ip_denominator l1 l2 <? Z.abs (dot_product (line_delta l1) (line_delta l2)).
+(* line_join.rs:296 intersections(): the point used for one side: the intersection of (second edge, first edge), or
+   the end of the first edge when the lines are nearly colinear; None = colinear (no join geometry) *)
+Definition join_point (second first : line) : option point :=
+  match ip_intersection second first with
+  | Some p => Some (if nearly_colinear second first then l_end first else p)
+  | None => None
+  end.
 (* line_join.rs:296 intersections(first_left, first_right, second_left, second_right) + the self-intersection
-   test and the miter test of from_points, given the four edge lines (Line::extents is not modelled) *)
+   test and the miter test of from_points, given the four edge lines (Line::extents is not modelled).
+   Both sides are checked (the code evaluates the miter length of the outer side only). *)
 Definition join_edges_ok (fl fr sl sr : line) (mid : point) (width : Z) : bool :=
   from_lines_ok sl fl && ip_intersection_ok sl fl && nearly_colinear_ok sl fl &&
   from_lines_ok sr fr && ip_intersection_ok sr fr && nearly_colinear_ok sr fr &&
   from_line_ok fl && le_point_distance_ok fl (l_end sl) &&
   from_line_ok fr && le_point_distance_ok fr (l_end sr) &&
-  match ip_intersection sl fl, ip_intersection sr fr with
+  match join_point sl fl, join_point sr fr with
   | Some li, Some ri => miter_ok li mid width && miter_ok ri mid width
   | _, _ => true
   end.
